@@ -1,6 +1,7 @@
 import Verif.C13.DenseLemmas
 import Verif.C13.SparseLemmas
 import Verif.C13.MapLemmas
+import Verif.C13.ReprInst
 /-!
 C13 — property theorems, dense solver (`dense.Forward`).
 
@@ -204,6 +205,85 @@ theorem dense_run_terminal (lat : Lat L) (hl : lat.Laws) (G : Graph) (hG : G.WF)
         (asc_reach lat G tr hl hG hm entry s hs) hmem.2
       omega
 
+
+/-! ### the whole of `dense.Forward`, in one statement -/
+
+/-- the initial state's measure: every node dirty and queued. -/
+theorem Dense.mu_init (lat : Lat L) (G : Graph) (entry : Nat → L) (rank : L → Nat) (H : Nat) :
+    mu G rank H (init lat G entry) = G.n * (H + 1) * (G.n + 1) + G.n := by
+  have h1 : ∀ k, sumTo (phi rank H (init lat G entry)) k = k * (H + 1) := by
+    intro k
+    induction k with
+    | zero => simp [sumTo]
+    | succ k ih =>
+      have hp : phi rank H (init lat G entry) k = H + 1 := by simp [phi, init]
+      rw [sumTo, ih, hp, Nat.succ_mul]
+  have h2 : ∀ k, k ≤ G.n → cnt (init lat G entry).q k = k := by
+    intro k hk
+    induction k with
+    | zero => simp [cnt, sumTo]
+    | succ k ih =>
+      have h0 := ih (by omega)
+      unfold cnt at h0 ⊢
+      have hq : (init lat G entry).q k = true := by
+        have : k < G.n := by omega
+        simp [init, this]
+      rw [sumTo, h0, hq]
+      simp
+  unfold mu
+  rw [h1, h2 G.n (Nat.le_refl _)]
+
+/-- **dense_forward_least_fixpoint.** `dense.Forward` as a whole: started from the state
+its initialisation loop builds, run under *any* schedule `pick` (the `nodeHeap` order
+included) with at least `n·(H+1)·(n+1) + n` iterations of fuel, the solver stops with an
+empty queue, and the facts it then holds are a solution of the dataflow equations and lie
+below every other (pre-)solution: the least fixpoint. -/
+theorem dense_forward_least_fixpoint (lat : Lat L) (hl : lat.Laws) (G : Graph) (hG : G.WF)
+    (tr : Nat → L → L) (hm : Mono lat tr) (entry : Nat → L) (rank : L → Nat) (H : Nat)
+    (hr : Ranked lat rank H) (pick : Nat → List Nat → Nat) (fuel : Nat)
+    (hf : G.n * (H + 1) * (G.n + 1) + G.n ≤ fuel) :
+    let s := (run lat G tr pick fuel 0 (init lat G entry)).1
+    Dense.Terminal s ∧
+    (∀ b, b < G.n → s.inF b =
+        if inEdges G b = [] then entry b else joinL lat ((inEdges G b).map s.outF)) ∧
+    (∀ e, e < G.m → s.outF e = tr e (s.inF (G.src e))) ∧
+    (∀ I O, PreSol lat G tr entry I O →
+        (∀ b, b < G.n → lat.le (s.inF b) (I b)) ∧ (∀ e, e < G.m → lat.le (s.outF e) (O e))) := by
+  intro s
+  have hreach : Reach lat G tr entry s := Dense.run_reach lat G tr entry pick fuel 0 _ Reach.init
+  have hterm : Dense.Terminal s :=
+    dense_run_terminal lat hl G hG tr hm entry rank H hr pick fuel 0 _ Reach.init
+      (by rw [Dense.mu_init]; exact hf)
+  have hfix := dense_fixpoint lat hl G hG tr entry s hreach hterm
+  exact ⟨hterm, hfix.2.1, hfix.2.2,
+    fun I O hs => dense_least lat hl G hG tr hm entry s hreach hterm I O hs⟩
+
+/-- the schedule of the real `nodeHeap`: among the queued nodes take one of least priority
+(`prio` = index in reverse postorder; any priority function will do). -/
+def Dense.heapPick (prio : Nat → Nat) : Nat → List Nat → Nat := fun _ l =>
+  match l with
+  | [] => 0
+  | x :: xs => (xs.foldl (fun (acc : Nat × Nat × Nat) y =>
+      if prio y < prio acc.2.1 then (acc.2.2, y, acc.2.2 + 1) else (acc.1, acc.2.1, acc.2.2 + 1)) (0, x, 1)).1
+
+/-- the priority-heap schedule is one instance of `dense_forward_least_fixpoint`. -/
+example (lat : Lat L) (hl : lat.Laws) (G : Graph) (hG : G.WF) (tr : Nat → L → L) (hm : Mono lat tr)
+    (entry : Nat → L) (rank : L → Nat) (H : Nat) (hr : Ranked lat rank H) (prio : Nat → Nat) :
+    Dense.Terminal (run lat G tr (Dense.heapPick prio) (G.n * (H + 1) * (G.n + 1) + G.n) 0
+      (init lat G entry)).1 :=
+  (dense_forward_least_fixpoint lat hl G hG tr hm entry rank H hr (Dense.heapPick prio) _
+    (Nat.le_refl _)).1
+
+/-- **dense_edge_api.** `Analysis.Edge(from, to)` finds *an* edge `from → to` by binary
+search; with parallel edges it may be any of them.  The transfer function of the real API
+depends on the end points only, and then all parallel edges carry the same fact. -/
+theorem dense_edge_api (lat : Lat L) (hl : lat.Laws) (G : Graph) (hG : G.WF) (tr : Nat → L → L)
+    (entry : Nat → L) (s : St L) (hr : Reach lat G tr entry s) (ht : Dense.Terminal s)
+    (e e' : Nat) (he : e < G.m) (he' : e' < G.m) (hs : G.src e = G.src e') (htr : tr e = tr e') :
+    s.outF e = s.outF e' := by
+  have hf := dense_fixpoint lat hl G hG tr entry s hr ht
+  rw [hf.2.2 e he, hf.2.2 e' he', hs, htr]
+
 /-! ### non-vacuity: a two-node cycle with an unreachable third node over the union lattice -/
 section example_dense
 def exG : Graph := { n := 3, m := 3, src := fun e => [0, 1, 2].getD e 0, dst := fun e => [1, 0, 2].getD e 0 }
@@ -237,6 +317,291 @@ example :
 end example_dense
 
 end dense
+
+/-! ## dense solver over lattices whose `Equals` is coarser than equality
+
+`dense.Forward[dfa.DenseMapLattice[ValueNilness, lattice]]` is how nilness.go uses the
+solver: facts are slices, `Equals` ignores trailing `Ident`s.  The theorems above ask for
+`Equals` = equality (`Lat.Laws.eq_iff`).  They carry over to any lattice that *represents*
+a lawful one (`Repr`, Repr.lean) — in particular to `DenseMapLattice` and `MapLattice`
+(`dm_repr`, `map_repr`, ReprInst.lean) — with every `=` between facts replaced by the
+lattice's own `Equals` and `⊑` by `Lat.leq` (`Equals(Merge(a,b), b)`).  Hypotheses the
+world must supply: the transfer functions keep facts well-formed (`C`), respect `Equals`
+(`TrResp`) and are monotone up to it (`MonoE`); entry facts are well-formed. -/
+section dense_upto
+open Dense
+variable {L' : Type}
+
+/-- **dense_fixpoint_upto.** -/
+theorem dense_fixpoint_upto (lat : Lat L) (C : L → Prop) (lat' : Lat L') (h : L → L') (g : L' → L)
+    (R : Repr lat C lat' h g) (hl' : lat'.Laws) (G : Graph) (hG : G.WF) (tr : Nat → L → L)
+    (ht : TrResp lat C tr) (entry : Nat → L) (he : ∀ b, C (entry b)) (s : St L)
+    (hr : Reach lat G tr entry s) (hterm : Dense.Terminal s) :
+    (∀ b, b < G.n → s.dirty b = false) ∧
+    (∀ b, b < G.n → lat.eq (s.inF b)
+        (if inEdges G b = [] then entry b else joinL lat ((inEdges G b).map s.outF)) = true) ∧
+    (∀ e, e < G.m → lat.eq (s.outF e) (tr e (s.inF (G.src e))) = true) := by
+  obtain ⟨hc, hr'⟩ := reach_comm R hl' G tr ht entry he s hr
+  have hf := dense_fixpoint lat' hl' G hG (trOf h g tr) _ (mapSt h s) hr' hterm
+  refine ⟨hf.1, ?_, ?_⟩
+  · intro b hb
+    have h2 := hf.2.1 b hb
+    by_cases hn : inEdges G b = []
+    · simp only [hn, if_true] at h2 ⊢
+      exact (R.h_eq _ _ (hc.1 b) (he b)).2 h2
+    · simp only [hn, if_false] at h2 ⊢
+      have hmem : ∀ x ∈ (inEdges G b).map s.outF, C x := by
+        intro x hx
+        obtain ⟨e, _, rfl⟩ := List.mem_map.1 hx
+        exact hc.2 e
+      have hj := R.joinL _ hmem
+      refine (R.h_eq _ _ (hc.1 b) hj.1).2 ?_
+      rw [hj.2, List.map_map]
+      exact h2
+  · intro e he'
+    have h3 := hf.2.2 e he'
+    refine (R.h_eq _ _ (hc.2 e) (ht.mem e _ (hc.1 _))).2 ?_
+    rw [tr_comm R tr ht e _ (hc.1 _)]
+    exact h3
+
+/-- **dense_least_upto.** The result is below (up to `Equals`) every well-formed
+pre-solution up to `Equals`. -/
+theorem dense_least_upto (lat : Lat L) (C : L → Prop) (lat' : Lat L') (h : L → L') (g : L' → L)
+    (R : Repr lat C lat' h g) (hl' : lat'.Laws) (G : Graph) (hG : G.WF) (tr : Nat → L → L)
+    (hmem : ∀ e a, C a → C (tr e a)) (hm : MonoE lat C tr) (entry : Nat → L) (he : ∀ b, C (entry b))
+    (s : St L) (hr : Reach lat G tr entry s) (hterm : Dense.Terminal s)
+    (I O : Nat → L) (hs : PreSolE lat C G tr entry I O) :
+    (∀ b, b < G.n → lat.leq (s.inF b) (I b)) ∧ (∀ e, e < G.m → lat.leq (s.outF e) (O e)) := by
+  have ht := resp_of_mono R hl' tr hmem hm
+  obtain ⟨hc, hr'⟩ := reach_comm R hl' G tr ht entry he s hr
+  have hl := dense_least lat' hl' G hG (trOf h g tr) (mono_comm R tr hm hmem) _ (mapSt h s) hr' hterm _ _
+    (presol_comm R G tr ht entry I O he hs)
+  exact ⟨fun b hb => (R.le_iff _ _ (hc.1 b) (hs.I_mem b)).1 (hl.1 b hb),
+         fun e he' => (R.le_iff _ _ (hc.2 e) (hs.O_mem e)).1 (hl.2 e he')⟩
+
+/-- a well-formed solution up to `Equals` is a `PreSolE` (so `dense_least_upto` applies). -/
+theorem Dense.presolE_of_solution (lat : Lat L) (C : L → Prop) (lat' : Lat L') (h : L → L') (g : L' → L)
+    (R : Repr lat C lat' h g) (hl' : lat'.Laws) (G : Graph) (tr : Nat → L → L)
+    (hmem : ∀ e a, C a → C (tr e a)) (entry I O : Nat → L) (he : ∀ b, C (entry b))
+    (hI : ∀ b, C (I b)) (hO : ∀ e, C (O e))
+    (h1 : ∀ b, b < G.n → lat.eq (I b)
+        (if inEdges G b = [] then entry b else joinL lat ((inEdges G b).map O)) = true)
+    (h2 : ∀ e, e < G.m → lat.eq (O e) (tr e (I (G.src e))) = true) :
+    PreSolE lat C G tr entry I O := by
+  have leq_of_eq : ∀ a b, C a → C b → lat.eq b a = true → lat.leq a b := by
+    intro a b ha hb hab
+    rw [← R.le_iff a b ha hb, (R.h_eq b a hb ha).1 hab]
+    exact hl'.le_refl _
+  refine ⟨hI, hO, ?_, ?_, ?_⟩
+  · intro b hb hn
+    have := h1 b hb
+    simp only [hn, if_true] at this
+    exact leq_of_eq _ _ (he b) (hI b) this
+  · intro b hb hn
+    have := h1 b hb
+    simp only [hn, if_false] at this
+    have hmemO : ∀ x ∈ (inEdges G b).map O, C x := by
+      intro x hx
+      obtain ⟨e, _, rfl⟩ := List.mem_map.1 hx
+      exact hO e
+    exact leq_of_eq _ _ (R.joinL _ hmemO).1 (hI b) this
+  · intro e he'
+    exact leq_of_eq _ _ (hmem e _ (hI _)) (hO e) (h2 e he')
+
+/-- **dense_terminates_upto.** No infinite run when the represented lattice has finite
+height. -/
+theorem dense_terminates_upto (lat : Lat L) (C : L → Prop) (lat' : Lat L') (h : L → L') (g : L' → L)
+    (R : Repr lat C lat' h g) (hl' : lat'.Laws) (G : Graph) (hG : G.WF) (tr : Nat → L → L)
+    (hmem : ∀ e a, C a → C (tr e a)) (hm : MonoE lat C tr) (entry : Nat → L) (he : ∀ b, C (entry b))
+    (rank : L' → Nat) (H : Nat) (hrk : Ranked lat' rank H) :
+    WellFounded (Dense.StepR lat G tr entry) := by
+  have ht := resp_of_mono R hl' tr hmem hm
+  have wf' := dense_terminates lat' hl' G hG (trOf h g tr) (mono_comm R tr hm hmem)
+    (fun b => h (entry b)) rank H hrk
+  apply Subrelation.wf (r := InvImage (Dense.StepR lat' G (trOf h g tr) (fun b => h (entry b))) (mapSt h)) _
+    (InvImage.wf _ wf')
+  intro s' s ⟨hreach, b, hb, hs'⟩
+  obtain ⟨hc, hr'⟩ := reach_comm R hl' G tr ht entry he s hreach
+  refine ⟨hr', b, hb, ?_⟩
+  rw [hs']
+  exact (process_comm R hl' G tr ht s hc b).2
+
+/-- **dense_run_terminal_upto.** The executable run stops with an empty queue within
+`n·(H+1)·(n+1) + n` iterations, for every schedule (`H` = height of the represented
+lattice). -/
+theorem dense_run_terminal_upto (lat : Lat L) (C : L → Prop) (lat' : Lat L') (h : L → L') (g : L' → L)
+    (R : Repr lat C lat' h g) (hl' : lat'.Laws) (G : Graph) (hG : G.WF) (tr : Nat → L → L)
+    (hmem : ∀ e a, C a → C (tr e a)) (hm : MonoE lat C tr) (entry : Nat → L) (he : ∀ b, C (entry b))
+    (rank : L' → Nat) (H : Nat) (hrk : Ranked lat' rank H)
+    (pick : Nat → List Nat → Nat) (fuel k : Nat) (s : St L) (hs : Reach lat G tr entry s)
+    (hf : mu G rank H (mapSt h s) ≤ fuel) : Dense.Terminal (run lat G tr pick fuel k s).1 := by
+  have ht := resp_of_mono R hl' tr hmem hm
+  have hm' := mono_comm R tr hm hmem
+  -- a queued node exists ⇒ the measure of the denoted state is positive and decreases
+  have hdec : ∀ (s : St L) (b : Nat), Reach lat G tr entry s → s.q b = true →
+      mu G rank H (mapSt h (process lat G tr s b)) < mu G rank H (mapSt h s) := by
+    intro s b hs hb
+    obtain ⟨hc, hr'⟩ := reach_comm R hl' G tr ht entry he s hs
+    rw [(process_comm R hl' G tr ht s hc b).2]
+    exact mu_step lat' G _ rank H hl' hrk _ _ b (inv_reach lat' G _ hl' hG _ _ hr')
+      (asc_reach lat' G _ hl' hG hm' _ _ hr') hb
+  have hqlt : ∀ (s : St L), Reach lat G tr entry s → ∀ b, s.q b = true → b < G.n := by
+    intro s hs b hb
+    obtain ⟨_, hr'⟩ := reach_comm R hl' G tr ht entry he s hs
+    exact (inv_reach lat' G _ hl' hG _ _ hr').q_lt b hb
+  induction fuel generalizing k s with
+  | zero =>
+    intro b
+    show s.q b = false
+    cases hq : s.q b
+    · rfl
+    · exfalso
+      have := hdec s b hs hq
+      omega
+  | succ f ih =>
+    unfold run
+    split
+    · rename_i hq
+      intro b
+      cases hqb : s.q b
+      · rfl
+      · exfalso
+        have : b ∈ queued G s := by
+          simp only [queued, List.mem_filter, List.mem_range]
+          exact ⟨hqlt s hs b hqb, hqb⟩
+        rw [hq] at this; cases this
+    · rename_i x xs hq
+      have hmem' : (x :: xs).getD (pick k (x :: xs) % (x :: xs).length) x ∈ queued G s := by
+        rw [hq, List.getD_eq_getElem?_getD]
+        have hlt : pick k (x :: xs) % (x :: xs).length < (x :: xs).length := Nat.mod_lt _ (by simp)
+        rw [List.getElem?_eq_getElem hlt]
+        exact List.getElem_mem hlt
+      simp only [queued, List.mem_filter] at hmem'
+      simp only [Dense.reify_eq]
+      apply ih _ _ (Reach.step hs hmem'.2)
+      have := hdec s _ hs hmem'.2
+      omega
+
+/-- **dense_forward_upto.** `dense.Forward` as a whole over a representing lattice: any
+schedule, enough fuel ⇒ the run ends with an empty queue in a solution of the equations up
+to `Equals` that is below every well-formed pre-solution up to `Equals`. -/
+theorem dense_forward_upto (lat : Lat L) (C : L → Prop) (lat' : Lat L') (h : L → L') (g : L' → L)
+    (R : Repr lat C lat' h g) (hl' : lat'.Laws) (G : Graph) (hG : G.WF) (tr : Nat → L → L)
+    (hmem : ∀ e a, C a → C (tr e a)) (hm : MonoE lat C tr) (entry : Nat → L) (he : ∀ b, C (entry b))
+    (rank : L' → Nat) (H : Nat) (hrk : Ranked lat' rank H)
+    (pick : Nat → List Nat → Nat) (fuel : Nat) (hf : G.n * (H + 1) * (G.n + 1) + G.n ≤ fuel) :
+    let s := (run lat G tr pick fuel 0 (init lat G entry)).1
+    Dense.Terminal s ∧
+    (∀ b, b < G.n → lat.eq (s.inF b)
+        (if inEdges G b = [] then entry b else joinL lat ((inEdges G b).map s.outF)) = true) ∧
+    (∀ e, e < G.m → lat.eq (s.outF e) (tr e (s.inF (G.src e))) = true) ∧
+    (∀ I O, PreSolE lat C G tr entry I O →
+        (∀ b, b < G.n → lat.leq (s.inF b) (I b)) ∧ (∀ e, e < G.m → lat.leq (s.outF e) (O e))) := by
+  intro s
+  have ht := resp_of_mono R hl' tr hmem hm
+  have hreach : Reach lat G tr entry s := Dense.run_reach lat G tr entry pick fuel 0 _ Reach.init
+  have hterm : Dense.Terminal s :=
+    dense_run_terminal_upto lat C lat' h g R hl' G hG tr hmem hm entry he rank H hrk pick fuel 0 _
+      Reach.init (by rw [(init_comm R G entry he).2, Dense.mu_init]; exact hf)
+  have hfix := dense_fixpoint_upto lat C lat' h g R hl' G hG tr ht entry he s hreach hterm
+  exact ⟨hterm, hfix.2.1, hfix.2.2, fun I O hs =>
+    dense_least_upto lat C lat' h g R hl' G hG tr hmem hm entry he s hreach hterm I O hs⟩
+
+variable {E : Type}
+
+/-- **dense_forward_densemap.** The instance nilness.go uses: facts are
+`DenseMapLattice` slices about `k` values over a lawful element lattice of height `H`;
+the transfer functions keep the length `≤ k` and are monotone up to
+`DenseMapLattice.Equals`.  Then `dense.Forward` ends, under any schedule, within
+`n·(H·k+1)·(n+1) + n` iterations in the least solution up to `DenseMapLattice.Equals`. -/
+theorem dense_forward_densemap (el : Lat E) (hl : el.Laws) (rank : E → Nat) (H : Nat)
+    (hrk : Ranked el rank H) (k : Nat) (G : Graph) (hG : G.WF) (tr : Nat → List E → List E)
+    (hmem : ∀ e a, a.length ≤ k → (tr e a).length ≤ k)
+    (hm : MonoE (dmLat el) (fun a => a.length ≤ k) tr)
+    (entry : Nat → List E) (he : ∀ b, (entry b).length ≤ k)
+    (pick : Nat → List Nat → Nat) (fuel : Nat) (hf : G.n * (H * k + 1) * (G.n + 1) + G.n ≤ fuel) :
+    let s := (run (dmLat el) G tr pick fuel 0 (init (dmLat el) G entry)).1
+    Dense.Terminal s ∧
+    (∀ b, b < G.n → dmEquals el (s.inF b)
+        (if inEdges G b = [] then entry b else joinL (dmLat el) ((inEdges G b).map s.outF)) = true) ∧
+    (∀ e, e < G.m → dmEquals el (s.outF e) (tr e (s.inF (G.src e))) = true) ∧
+    (∀ I O, PreSolE (dmLat el) (fun a => a.length ≤ k) G tr entry I O →
+        (∀ b, b < G.n → (dmLat el).leq (s.inF b) (I b)) ∧
+        (∀ e, e < G.m → (dmLat el).leq (s.outF e) (O e))) :=
+  dense_forward_upto (dmLat el) _ (finLat el k) _ _ (dm_repr el hl k) (finLat_laws el hl k) G hG tr
+    hmem hm entry he _ _ (finLat_ranked el rank H hrk k) pick fuel hf
+
+/-- **dense_forward_map.** The same for `MapLattice` facts: well-formed maps (`MapOK`:
+distinct keys `< k`, no `Ident` value). -/
+theorem dense_forward_map (el : Lat E) (hl : el.Laws) (rank : E → Nat) (H : Nat)
+    (hrk : Ranked el rank H) (k : Nat) (G : Graph) (hG : G.WF) (tr : Nat → GoMap E → GoMap E)
+    (hmem : ∀ e a, MapOK el k a → MapOK el k (tr e a))
+    (hm : MonoE (mapLat el) (MapOK el k) tr)
+    (entry : Nat → GoMap E) (he : ∀ b, MapOK el k (entry b))
+    (pick : Nat → List Nat → Nat) (fuel : Nat) (hf : G.n * (H * k + 1) * (G.n + 1) + G.n ≤ fuel) :
+    let s := (run (mapLat el) G tr pick fuel 0 (init (mapLat el) G entry)).1
+    Dense.Terminal s ∧
+    (∀ b, b < G.n → mapEquals el (s.inF b)
+        (if inEdges G b = [] then entry b else joinL (mapLat el) ((inEdges G b).map s.outF)) = true) ∧
+    (∀ e, e < G.m → mapEquals el (s.outF e) (tr e (s.inF (G.src e))) = true) ∧
+    (∀ I O, PreSolE (mapLat el) (MapOK el k) G tr entry I O →
+        (∀ b, b < G.n → (mapLat el).leq (s.inF b) (I b)) ∧
+        (∀ e, e < G.m → (mapLat el).leq (s.outF e) (O e))) :=
+  dense_forward_upto (mapLat el) _ (finLat el k) _ _ (map_repr el hl k) (finLat_laws el hl k) G hG tr
+    hmem hm entry he _ _ (finLat_ranked el rank H hrk k) pick fuel hf
+
+/-! non-vacuity of the `upto` theorems: the graph `exG` (cycle 0 ⇄ 1, isolated self loop 2)
+with `DenseMapLattice` / `MapLattice` facts about one variable over the union lattice. -/
+section example_upto
+def exTrD : Nat → List Bool → List Bool := fun e a => if e = 0 then [true] else a
+def exTrM : Nat → GoMap Bool → GoMap Bool := fun e a => if e = 0 then [(0, true)] else a
+
+theorem exTrD_mono : MonoE (dmLat exLat) (fun a => a.length ≤ 1) exTrD := by
+  intro e a b _ _ h
+  unfold exTrD
+  split
+  · show dmEquals exLat (dmMerge exLat [true] [true]) [true] = true
+    decide
+  · exact h
+
+theorem exMapOK : MapOK exLat 1 [(0, true)] := by
+  refine ⟨by unfold NodupKeys keys; decide, ?_, ?_⟩
+  · intro kv hkv
+    simp only [List.mem_singleton] at hkv
+    subst hkv
+    decide
+  · intro x hx
+    simp only [keys, List.map_cons, List.map_nil, List.mem_singleton] at hx
+    omega
+
+theorem exTrM_mono : MonoE (mapLat exLat) (MapOK exLat 1) exTrM := by
+  intro e a b _ _ h
+  unfold exTrM
+  split
+  · show mapEquals exLat (mapMerge exLat [(0, true)] [(0, true)]) [(0, true)] = true
+    decide
+  · exact h
+
+example :
+    let s := (run (dmLat exLat) exG exTrD (fun _ _ => 0) 100 0 (init (dmLat exLat) exG (fun _ => []))).1
+    Dense.Terminal s ∧ s.inF 0 = [true] ∧ s.inF 1 = [true] ∧ s.inF 2 = [] := by
+  refine ⟨?_, by decide, by decide, by decide⟩
+  exact (dense_forward_densemap exLat exLat_laws _ 1 exRanked 1 exG exG_wf exTrD
+    (by intro e a ha; unfold exTrD; split <;> simp [ha]) exTrD_mono (fun _ => [])
+    (by intro b; simp) _ 100 (by decide)).1
+
+example :
+    let s := (run (mapLat exLat) exG exTrM (fun _ l => l.length - 1) 100 0
+      (init (mapLat exLat) exG (fun _ => []))).1
+    Dense.Terminal s ∧ s.inF 0 = [(0, true)] ∧ s.inF 1 = [(0, true)] ∧ s.inF 2 = [] := by
+  refine ⟨?_, by decide, by decide, by decide⟩
+  have hbot : MapOK exLat 1 [] := (map_repr exLat exLat_laws 1).bot_mem
+  exact (dense_forward_map exLat exLat_laws _ 1 exRanked 1 exG exG_wf exTrM
+    (by intro e a ha; unfold exTrM; split; exact exMapOK; exact ha) exTrM_mono (fun _ => [])
+    (fun _ => hbot) _ 100 (by decide)).1
+end example_upto
+
+end dense_upto
 
 /-! ## sparse (per-value) solver — `sparse.Instance.Forward`
 
@@ -385,6 +750,41 @@ theorem sparse_run_terminal (lat : Lat L) (hl : lat.Laws) (P : Prog L) (hw : P.W
       have := Sparse.mu_step lat P rank H hl hr val0 s _ (Sparse.inv_reach lat P hl hw hd val0 s hs)
         (Sparse.asc_reach lat P hl hw hd hm val0 h0 s hs) hmem.2
       omega
+
+
+theorem Sparse.mu_init_le (P : Prog L) (val0 : Nat → L) (rank : L → Nat) (H : Nat) :
+    Sparse.mu P rank H (Sparse.init P val0) ≤ P.n * H * (P.n + 1) + P.n := by
+  have h1 : sumTo (Sparse.phi rank H (Sparse.init P val0)) P.n ≤ sumTo (fun _ => H) P.n :=
+    sumTo_le P.n (fun x _ => by simp only [Sparse.phi]; omega)
+  rw [sumTo_const, Nat.mul_comm H P.n] at h1
+  have h2 := cnt_le (Sparse.init P val0).w P.n
+  unfold Sparse.mu
+  have := Nat.mul_le_mul_right (P.n + 1) h1
+  omega
+
+/-- **sparse_forward_least_fixpoint.** `sparse.Instance.Forward` as a whole: from the
+initial worklist (every instruction), under any order of taking instructions from it, with
+at least `n·H·(n+1) + n` iterations of fuel, the loop ends with an empty worklist in a
+mapping that solves the equations (phi = merge of its edges, other instruction values =
+their transfer, everything else untouched) and is below every pre-solution. -/
+theorem sparse_forward_least_fixpoint (lat : Lat L) (hl : lat.Laws) (P : Prog L) (hw : P.WF) (hd : Dep P)
+    (hm : Sparse.Mono lat P) (val0 : Nat → L) (h0 : InitBot lat P val0)
+    (rank : L → Nat) (H : Nat) (hr : Ranked lat rank H) (nv : Nat)
+    (pick : Nat → List Nat → Nat) (fuel : Nat) (hf : P.n * H * (P.n + 1) + P.n ≤ fuel) :
+    let s := (Sparse.run lat P nv pick fuel 0 (Sparse.init P val0)).1
+    Sparse.Terminal s ∧
+    (∀ i, i < P.n → P.kind i = .phi → s.val i = joinL lat ((P.ops i).map s.val)) ∧
+    (∀ i, i < P.n → P.kind i = .op → s.val i = P.tr i s.val) ∧
+    (∀ v, (P.n ≤ v ∨ P.kind v = .none) → s.val v = val0 v) ∧
+    (∀ τ, Sparse.PreSol lat P val0 τ → ∀ v, lat.le (s.val v) (τ v)) := by
+  intro s
+  have hreach : Sparse.Reach lat P val0 s := Sparse.run_reach lat P val0 nv pick fuel 0 _ Sparse.Reach.init
+  have hterm : Sparse.Terminal s :=
+    sparse_run_terminal lat hl P hw hd hm val0 h0 rank H hr nv pick fuel 0 _ Sparse.Reach.init
+      (Nat.le_trans (Sparse.mu_init_le P val0 rank H) hf)
+  have hfix := sparse_fixpoint lat hl P hw hd val0 s hreach hterm
+  exact ⟨hterm, hfix.1, hfix.2.1, hfix.2.2,
+    fun τ hs => sparse_least lat hl P hw hd hm val0 h0 s hreach τ hs⟩
 
 /-! non-vacuity: `v0 = phi(v2, v1)`, `v1 = op(v0)` (a loop), `v2` a parameter set to `true`,
 instruction 3 a `Jump`. -/
